@@ -143,6 +143,11 @@ def shards(tier):
             sh['seq'] = seq
             sh['kind'] = 'dev'
             out.append(sh)
+    # a 12-residue base (two-digit positions; every residue letter once more) at deviation <= 1 / 2
+    for sh in space.dev_shards(AXES, 2 if tier == 'thorough' else 1):
+        sh['seq'] = 'SMKPEMKACDFW'
+        sh['kind'] = 'dev'
+        out.append(sh)
     out += [{'kind': 'letters', 'first': a} for a in refdata.ALL_LETTERS]
     out.append({'kind': 'unimod'})
     out += [{'kind': 'labelled', 'label': lab} for lab in LABELS]
